@@ -22,6 +22,7 @@ func init() {
 		ruleW1(c, "C01.R7")
 		ruleU2(c, "C01.R8")
 		ruleU1(c, "C01.R9")
+		ruleDiskWrapper(c, "C01.R10")
 	}
 }
 
